@@ -14,27 +14,46 @@
 (*   - prints one CASE line: derivation path and the fan of all operations *)
 (*     with the observation the specification prescribes for each.         *)
 (* The harness replays each CASE on the real reader (spec -> impl).        *)
+(*                                                                         *)
+(* Two families of roots.  Small roots (<= 16 bytes) are explored with the *)
+(* full universe of operations, types and arguments to depth MaxObjs.      *)
+(* Wide roots hold arrays of the widest element types (4-tuples of four    *)
+(* different field sizes: 15 bytes, two elements with a stride of 16);     *)
+(* they are explored to depth MaxObjsWide with the composite types whose   *)
+(* fields all differ in size.                                              *)
+(*                                                                         *)
+(* Every case starts by reading the root through the per-type ReadCache    *)
+(* (PrimeOps): a later cached read through a window whose base is 0 must   *)
+(* find that value, through any other window it must decode its own bytes. *)
 (***************************************************************************)
 EXTENDS BinaryReader, Json
 
 CONSTANTS Roots,        \* set of root buffers
-          MaxObjs       \* bound on the derivation depth (objects created along one path)
+          MaxObjs,      \* bound on the derivation depth (objects created along one path), small roots
+          MaxObjsWide,  \* same for wide roots
+          Deep          \* BOOLEAN: the larger argument / type universes on wide roots (thorough tier)
 
 VARIABLES st, focus, path
 
 vars == <<st, focus, path>>
 
+Wide == Len(st.root) > 16
+
 \* ---- argument universes, relative to the object at hand -------------------
-Uniq(S) == S                      \* (sets are already duplicate free)
 OffArgs(len)  == {k \in {0, 1, 2, len - 1, len, len + 1, HUGE} : k >= 0}
 LenArgs(len)  == {k \in {0, 1, 2, 3, len - 1, len, len + 1, HUGE} : k >= 0}
-CntArgs       == {0, 1, 2, 3, 5, HUGE}
+CntArgs       == IF Wide THEN (IF Deep THEN {0, 1, 2, 3, HUGE} ELSE {0, 1, 2, HUGE}) ELSE {0, 1, 2, 3, 5, HUGE}
 IdxArgs(n)    == {k \in {0, 1, n - 1, n, n + 1, HUGE} : k >= 0}
-MethodTypes   == {"u8","i8","u16","i16","u32","i32","u64","i64"}
-TraitTypes    == AllTypes
-ArrTypes      == {"u8","i16","u24","u32","u8u16","u16x3","nt16","u64"}
-StrideTypes   == {"u8","u16","u8u16"}
-Strides       == {0, 1, 2, 3, 4}
+MethodTypes   == IF Wide /\ ~Deep THEN {"u8"} ELSE {"u8","i8","u16","i16","u32","i32","u64","i64"}
+TraitTypes    == IF Wide /\ ~Deep THEN AllDiffTypes ELSE AllTypes
+ArrTypes      == IF Wide THEN AllDiffTypes \cup (IF Deep THEN {"u8", "u24", "u16x3", "i64"} ELSE {})
+                 ELSE {"u8","i16","u24","u32","u8u16","u16x3","nt16","u64","p24","t124","ts132","ntt412"}
+StrideTypes   == IF Wide THEN {"p24","p81","t481","q1248","q8124","ntq4182","n21x84"}
+                              \cup (IF Deep THEN {"u8u16", "t248", "t812", "q2481", "q4812", "ts132"} ELSE {})
+                 ELSE {"u8","u16","u8u16","t124"}
+Strides(ty)   == IF Wide THEN {SizeOf(ty) - 1, SizeOf(ty), SizeOf(ty) + 1} \cup (IF Deep THEN {SizeOf(ty) + 3} ELSE {})
+                 ELSE {0, 1, 2, 3, 4, SizeOf(ty) + 1}
+CacheTypes    == IF Wide THEN {"u8u16","q1248","ntq4182"} ELSE {"u8","u16","u8u16","ntt412"}
 DepSizes      == {0, 1, 2, 3}
 Nibbles       == {0, 1, 2, 9, 15}
 NoKey         == <<>>
@@ -44,19 +63,26 @@ NoKey         == <<>>
 TyOf(t) == LET ks == {k \in 1 .. Len(path) : path[k].made = t} IN
            IF ks = {} THEN "" ELSE path[CHOOSE k \in ks : TRUE].o.ty
 
+\* the scopes among the objects made so far (for ==)
+ScopesOf == {u \in DOMAIN st.objs : st.objs[u].kind = "scope"}
+
 ScopeOps(t, s) ==
        {Op("Offset", t, "", k, 0, NoKey) : k \in OffArgs(s.len)}
   \cup {Op("OffsetLength", t, "", k, n, NoKey) : k \in OffArgs(s.len), n \in LenArgs(s.len)}
   \cup {Op("Ctxt", t, "", 0, 0, NoKey)}
   \cup {Op("ScopeRead", t, ty, 0, 0, NoKey) : ty \in TraitTypes}
+  \cup {Op("ReadCache", t, ty, 0, 0, NoKey) : ty \in CacheTypes}
+  \cup {Op("ScopeEq", t, "", u, 0, NoKey) : u \in {x \in ScopesOf : ScopeEqKnown(st, t, x)}}
+  \cup {Op("ScopeOwned", t, "", 0, 0, NoKey)}
 
 CtxtOps(t, c) ==
        {Op("ReadM", t, ty, 0, 0, NoKey) : ty \in MethodTypes}
   \cup {Op("ReadT", t, ty, 0, 0, NoKey) : ty \in TraitTypes}
   \cup {Op("ReadScope", t, "", n, 0, NoKey) : n \in LenArgs(c.len - c.off)}
   \cup {Op("ReadSlice", t, "", n, 0, NoKey) : n \in LenArgs(c.len - c.off)}
+  \cup {Op("ReadDep", t, "", n, 0, NoKey) : n \in {0, 1, c.len - c.off, c.len - c.off + 1, HUGE}}
   \cup {Op("ReadArray", t, ty, n, 0, NoKey) : ty \in ArrTypes, n \in CntArgs}
-  \cup {Op("ReadArrayStride", t, ty, n, s, NoKey) : ty \in StrideTypes, n \in CntArgs, s \in Strides}
+  \cup UNION {{Op("ReadArrayStride", t, ty, n, s, NoKey) : n \in CntArgs, s \in Strides(ty)} : ty \in StrideTypes}
   \cup {Op("ReadArrayUpto", t, ty, n, 0, NoKey) : ty \in ArrTypes, n \in CntArgs}
   \* (a zero-size element type with a HUGE count is a legal, endless array: not generated)
   \cup {Op("ReadArrayDep", t, "dep", p[1], p[2], NoKey) :
@@ -75,22 +101,21 @@ SearchDeterministic(a, key) ==
   IsSortedArr(st, a) /\ Cardinality(SearchOk(st, a, key)) <= 1
 
 ArrayOps(t, a) ==
-  LET ElemTypes(x) == {TyOf(t)} IN
-       {Op("Len", t, "", 0, 0, NoKey)}
-  \cup {Op(nm, t, ty, i, 0, NoKey) : nm \in {"GetItem", "ReadItem", "CowGetItem", "CowReadItem"},
-                                      ty \in ElemTypes(a), i \in IdxArgs(a.n)}
-  \cup {Op("Last", t, ty, 0, 0, NoKey) : ty \in ElemTypes(a)}
-  \cup {Op(nm, t, ty, 0, 0, NoKey) : nm \in {"Iter", "ToVec", "IterRes", "CowIter"}, ty \in ElemTypes(a)}
-  \cup {Op("CheckIndex", t, "", i, 0, NoKey) : i \in IdxArgs(a.n)}
-  \cup {Op("Search", t, ty, 0, 0, key) : ty \in ElemTypes(a),
-                                         key \in {k \in KeysOf(a) : SearchDeterministic(a, k)}}
+  LET ty == TyOf(t) IN
+       {Op("Len", t, ty, 0, 0, NoKey)}
+  \cup {Op(nm, t, ty, i, 0, NoKey) : nm \in {"GetItem", "ReadItem", "CowGetItem", "CowReadItem",
+                                               "OwnGetItem", "OwnReadItem"}, i \in IdxArgs(a.n)}
+  \cup {Op("Last", t, ty, 0, 0, NoKey)}
+  \cup {Op(nm, t, ty, 0, 0, NoKey) : nm \in {"Iter", "IntoIter", "ToVec", "IterRes", "ReadToVec", "CowIter", "OwnIter"}}
+  \cup {Op(nm, t, "", i, 0, NoKey) : nm \in {"CheckIndex", "CowCheckIndex", "OwnCheckIndex"}, i \in IdxArgs(a.n)}
+  \cup {Op("Search", t, ty, 0, 0, key) : key \in {k \in KeysOf(a) : SearchDeterministic(a, k)}}
 
 \* A dependent-size array (created by ReadArrayDep) is read with the harness type "dep";
 \* it supports the ReadFixedSizeDep part of the API only.
 DepArrayOps(t, a) ==
-       {Op("Len", t, "", 0, 0, NoKey)}
+       {Op("Len", t, "dep", 0, 0, NoKey)}
   \cup {Op("ReadItem", t, "dep", i, 0, NoKey) : i \in IdxArgs(a.n)}
-  \cup {Op("IterRes", t, "dep", 0, 0, NoKey)}
+  \cup {Op("IterRes", t, "dep", 0, 0, NoKey), Op("ReadToVec", t, "dep", 0, 0, NoKey)}
   \cup {Op("CheckIndex", t, "", i, 0, NoKey) : i \in IdxArgs(a.n)}
 
 IsDep(t) == TyOf(t) = "dep"
@@ -104,15 +129,23 @@ OpsAt(t) ==
 ApplyX(s, o) == Apply(s, o)
 
 ---------------------------------------------------------------------------
-Init == /\ \E r \in Roots : st = InitState(r)
+\* Every case starts with the root read through the caches.
+PrimeTypes(root) == IF Len(root) > 16 THEN <<"u8u16", "q1248", "ntq4182">> ELSE <<"u8", "u16", "u8u16", "ntt412">>
+RECURSIVE Primed(_, _, _, _)
+Primed(s, tys, k, acc) ==
+  IF k > Len(tys) THEN [st |-> s, path |-> acc]
+  ELSE LET o == Op("ReadCache", 1, tys[k], 0, 0, NoKey)
+           r == Apply(s, o) IN
+       Primed(r.st, tys, k + 1, Append(acc, [o |-> o, exp |-> r.obs, made |-> 0]))
+
+Init == /\ \E r \in Roots : LET p == Primed(InitState(r), PrimeTypes(r), 1, <<>>) IN st = p.st /\ path = p.path
         /\ focus = 1
-        /\ path = <<>>
 
 \* One step: apply an operation to the focus; continue with the moved context or the new object.
 Step(o) ==
   LET r == ApplyX(st, o) IN
-  /\ r.st # st                                   \* queries and failures are self-loops
-  /\ Len(r.st.objs) <= MaxObjs
+  /\ r.st.objs # st.objs                         \* queries, failures and cached reads are self-loops
+  /\ Len(r.st.objs) <= (IF Wide THEN MaxObjsWide ELSE MaxObjs)
   /\ st' = r.st
   /\ \/ /\ Len(r.st.objs) > Len(st.objs)         \* focus on the new object
         /\ focus' = Len(r.st.objs)
@@ -137,28 +170,40 @@ TransOK(o) ==
   /\ FailNoEffect(st, r.st, r.obs)
   /\ ReadExact(st, r.st, o, r.obs)
   /\ DerivedInside(st, r.st, o, r.obs)
+  /\ PositionKept(st, r.st, o, r.obs)
+  /\ CacheLocated(st, o, r.obs)
   /\ (o.op = "Search" => SearchConforms(st, o.t, o.key, r.obs))
   \* any HUGE argument that matters can only fail or yield nothing
-  /\ (o.op \in {"ReadScope", "ReadSlice", "GetItem", "ReadItem", "CowGetItem", "CowReadItem",
-                "CheckIndex"} /\ IsHuge(o.a)) => ~r.obs.ok
+  /\ (o.op \in {"ReadScope", "ReadSlice", "ReadDep", "GetItem", "ReadItem", "CowGetItem", "CowReadItem",
+                "OwnGetItem", "OwnReadItem", "CheckIndex", "CowCheckIndex", "OwnCheckIndex"} /\ IsHuge(o.a)) => ~r.obs.ok
 
-DesignOK == \A o \in OpsAt(focus) : TransOK(o)
+\* SIZE is the sum of the field sizes and the field-wise decoding is the window, for every type at
+\* every position of the root
+TypesOK == \A ty \in AllTypes : \A p \in 0 .. Len(st.root) : FieldwiseExact(st, ty, p)
 
-\* Vacuity guards: TLC reports these as violated if the model never reaches the situation.
-\* (They are checked the other way round by the driver through the CASE statistics.)
+DesignOK == (\A o \in OpsAt(focus) : TransOK(o)) /\ (focus = 1 => TypesOK)
 
-\* Generator: one line per distinct state.
-Fan == {[o |-> o, exp |-> ApplyX(st, o).obs] : o \in OpsAt(focus)}
+\* Generator: one line per distinct state.  To keep the output small a record is printed without the
+\* fields that have their default value (the harness puts them back before comparing).
+ObsDefault == [ok |-> FALSE, err |-> "", v |-> <<>>, num |-> 0, cnt |-> 0, new |-> <<>>, rem |-> -1,
+               touched |-> <<>>, aux |-> <<>>]
+OpDefault  == [op |-> "", t |-> 0, ty |-> "", a |-> 0, b |-> 0, key |-> <<>>]
+Slim(r, dflt) == [k \in {f \in DOMAIN r : r[f] # dflt[f]} |-> r[k]]
+SlimStep(o, exp) == [o |-> Slim(o, OpDefault), exp |-> Slim(exp, ObsDefault)]
+Fan == {SlimStep(o, ApplyX(st, o).obs) : o \in OpsAt(focus)}
 EmitCase ==
   PrintT(<<"CASE", ToJson([root |-> st.root,
-                           path |-> [k \in 1 .. Len(path) |-> [o |-> path[k].o, exp |-> path[k].exp]],
+                           path |-> [k \in 1 .. Len(path) |-> SlimStep(path[k].o, path[k].exp)],
                            focus |-> focus,
                            fan |-> SetToSeq(Fan)])>>)
 
 
 \* ---- constants for the configurations --------------------------------------
 Pat(n, b) == [i \in 1 .. n |-> (b + 16 * i + i) % 256]    \* position-identifying bytes
-RootsQuick    == {<<>>, <<17>>, Pat(5, 0), Pat(9, 128)}
+Inc(n, d) == [i \in 1 .. n |-> d * i]                      \* strictly increasing: every array over it is sorted
+RootsQuick    == {<<>>, <<17>>, Pat(5, 0), Pat(9, 128), Inc(36, 7)}
+Dup(n, k)  == [i \in 1 .. n |-> (i - 1) \div k]            \* non-decreasing with runs of k equal bytes
 RootsThorough == {<<>>, <<17>>, Pat(3, 0), Pat(5, 0), Pat(9, 128), Pat(12, 0),
-                  <<3, 1, 2, 2, 3, 1, 0, 16, 1, 250>>, <<255, 255, 128, 0, 127, 255, 0, 0>>}
+                  <<3, 1, 2, 2, 3, 1, 0, 16, 1, 250>>, <<255, 255, 128, 0, 127, 255, 0, 0>>,
+                  Inc(36, 7), Pat(40, 128), Dup(33, 5), Inc(32, 7), Pat(47, 3)}
 =============================================================================
